@@ -20,11 +20,20 @@ var stLatin = []string{"STR", "hp", "san", "_x", "Luck", "ZZ", "wis"} // never s
 
 type stValue struct{ text, canon string }
 
+// stNum writes a decimal integer the way players do, now and then with leading zeros (`08`, `010`):
+// a number is decimal whatever its first digit is.
+func stNum(r *fw.Rand, n int) string {
+	if r.P(1, 4) {
+		return strings.Repeat("0", 1+r.Intn(2)) + fmt.Sprint(n)
+	}
+	return fmt.Sprint(n)
+}
+
 func stGenValue(r *fw.Rand) stValue {
 	switch r.Intn(9) {
 	case 0:
 		n := r.Intn(100)
-		return stValue{fmt.Sprint(n), fmt.Sprintf("i%d", n)}
+		return stValue{stNum(r, n), fmt.Sprintf("i%d", n)}
 	case 1:
 		return stValue{"60.5", Canon(ds.NewFloatVal(60.5))}
 	case 2:
@@ -34,8 +43,8 @@ func stGenValue(r *fw.Rand) stValue {
 		a, b := r.Intn(10), r.Intn(10)
 		return stValue{fmt.Sprintf("(%d+%d)", a, b), fmt.Sprintf("i%d", a+b)}
 	case 4:
-		a, b := 1+r.Intn(5), r.Intn(10)
-		return stValue{fmt.Sprintf("%dd1+%d", a, b), fmt.Sprintf("i%d", a+b)}
+		a, b := 1+r.Intn(5), r.Intn(20)
+		return stValue{fmt.Sprintf("%dd1+%s", a, stNum(r, b)), fmt.Sprintf("i%d", a+b)}
 	case 5:
 		a, b := r.Intn(10), 1+r.Intn(5)
 		return stValue{fmt.Sprintf("%d*%d", a, b), fmt.Sprintf("i%d", a*b)}
@@ -46,7 +55,7 @@ func stGenValue(r *fw.Rand) stValue {
 		return stValue{fmt.Sprintf("%dd1k1", a+1), "i1"}
 	default:
 		n := r.Intn(1000)
-		return stValue{fmt.Sprint(n), fmt.Sprintf("i%d", n)}
+		return stValue{stNum(r, n), fmt.Sprintf("i%d", n)}
 	}
 }
 
@@ -78,8 +87,8 @@ func stGenAssign(r *fw.Rand) (string, stExp, bool) {
 	case 4:
 		return cn + stBlank(r) + "*" + stBlank(r) + r.Pick([]string{":", "="}) + stBlank(r) + v.text, stExp{"set.x0", cn, v.canon, "NIL", "", ""}, paren
 	case 5:
-		ex := r.Pick([]string{"2", "2.5", "(1+1)"})
-		exr := map[string]string{"2": "i2", "2.5": Canon(ds.NewFloatVal(2.5)), "(1+1)": "i2"}[ex]
+		ex := r.Pick([]string{"2", "2.5", "(1+1)", "010", "08"})
+		exr := map[string]string{"2": "i2", "2.5": Canon(ds.NewFloatVal(2.5)), "(1+1)": "i2", "010": "i10", "08": "i8"}[ex]
 		return cn + stBlank(r) + "*" + stBlank(r) + ex + stBlank(r) + r.Pick([]string{":", "="}) + stBlank(r) + v.text, stExp{"set.x1", cn, v.canon, exr, "", ""}, paren
 	case 6:
 		e := r.Pick([]string{"1d6+2", "(1d6+2)", "2d6", "力量*2", "2", "40", ".5", "(2.5)", "((3))", "0", "1d1"})
@@ -268,7 +277,7 @@ func init() {
 		Floors: func(tier string) map[string]int64 {
 			return map[string]int64{"lists_exact": 50000, "lists_modify": 10000, "lists_assign": 30000, "edits": 200000}
 		},
-		Rule:        "case = homogeneous ^st list of 1–8 edits: names from CJK/Hangul/kana, Latin names not starting with a dice letter, namespaced x:y, quoted names with digits/spaces/colons, names ending in digits with a separator; values: ints, floats, d1 dice, parenthesised expressions, products, keep-dice; multiplier forms *: and *N:; computed &name=expr; modifications + += -= - and chained subtraction; separators none/space/comma. The recorded CallbackSt sequence must equal the expected one (type, name byte-exact, value, extra, operator, text) and nothing may be left in RestInput. distinct = hash(source)",
+		Rule:        "case = homogeneous ^st list of 1–8 edits: names from CJK/Hangul/kana, Latin names not starting with a dice letter, namespaced x:y, quoted names with digits/spaces/colons, names ending in digits with a separator; values: ints, floats, d1 dice, parenthesised expressions, products, keep-dice; multiplier forms *: and *N:; computed &name=expr; modifications + += -= - and chained subtraction; separators none/space/comma. The recorded CallbackSt sequence must equal the expected one (type, name byte-exact, value, extra, operator, text) and nothing may be left in RestInput. distinct = hash(source) Integer values and multipliers are also written with leading zeros (010, 08).",
 		Assumptions: []string{"spellings with a second legal reading (parenthesised value followed by &name or by a Latin name, unquoted name ending in a digit before a value) are not generated"},
 	})
 }
